@@ -1,15 +1,23 @@
 ----------------------------- MODULE Trace_Rng -----------------------------
 (***************************************************************************)
 (* Trace validation for C17 (module Rng).  The harness executes the        *)
-(* interleavings printed by MC_Rng against the real library, sharing       *)
-(* common prefixes, so the recording is a TREE of events: node i is one    *)
-(* executed action                                                         *)
+(* interleavings printed by MC_Rng against the real library.  The          *)
+(* recording is a FOREST of events: node i is one executed action          *)
 (*   [p  parent node (0 = first action of a behaviour),                    *)
 (*    fc, nc  its children are the nodes fc .. fc+nc-1,                    *)
-(*    a  "d" user draw | "s" user seed | "c" call,  r, k  routine and key, *)
+(*    a  "d" user draw | "s" user seed | "c" call,                         *)
+(*    r, op, k  routine, operator and key of a call (integers),            *)
 (*    g0, g1  identity of np.random.get_state() before / after the action, *)
-(*    o  identity of the bytes returned by the call (0 for user actions)]. *)
+(*    o  identity of the bytes returned by the call (0 for user actions),  *)
+(*    c  for a call: the node the harness names as the canonical (first    *)
+(*       recorded) call of the same (routine, operator, key); 0 otherwise] *)
 (* Identities are SHA-256 digests interned to small integers (injective).  *)
+(* Behaviours of the base mode share prefixes (a tree per operator; the    *)
+(* harness restores the global state between siblings); behaviours of the  *)
+(* variant modes (calls on the float32 / float64 / complex64 / complex128  *)
+(* versions of one matrix, unrelated keyed draws, user draws) are executed *)
+(* linearly, several of them one after the other in a fresh process: a     *)
+(* chain, i.e. one long history.                                           *)
 (*                                                                         *)
 (* Every root-to-leaf path is one behaviour; the state carries the         *)
 (* specification variables g and out of module Rng along the path and the  *)
@@ -19,30 +27,49 @@
 (*   sane  a user draw does change the recorded identity (the observation  *)
 (*         is sensitive; binding check, not part of the property),         *)
 (*   okg   a call leaves g unchanged              (clause global_state),   *)
-(*   okd   equal (routine, key) => equal output   (clause determinism).    *)
+(*   okd   equal (routine, operator, key) => equal output, against every   *)
+(*         earlier call ON THIS PATH, whatever came in between (calls on   *)
+(*         other dtypes / shapes / keys included)   (clause determinism),  *)
+(*   okf   ... and against the calls of every OTHER recorded history: the  *)
+(*         output equals that of the canonical node of its slot.  The      *)
+(*         pointer c is the harness's claim; it is validated here (the     *)
+(*         canonical node is a call of the same slot that points to        *)
+(*         itself; CanonUnique: no two canonical nodes share a slot), so   *)
+(*         all accepted calls of a slot carry one and the same output.     *)
+(* out is indexed by the full slot <<r, op, k>>: calls that differ in      *)
+(* routine, operator or key are never compared (not forced equal).         *)
 (* A rejected event does not stop the walk (g, out continue from the       *)
 (* recorded values) so that every event gets a verdict.                    *)
 (***************************************************************************)
-EXTENDS Integers, Sequences, Json, TLC, IOUtils
-
-CONSTANTS NR, NK      \* number of routines, number of keys
+EXTENDS Integers, Sequences, FiniteSets, Json, TLC, IOUtils
 
 Nodes == ndJsonDeserialize(IOEnv.TRACE_FILE)
 N == Len(Nodes)
 
 VARIABLES l, g, out, v
 
-NoOut == [r \in 1..NR |-> [k \in 1..NK |-> 0]]
+Slot(e) == <<e.r, e.op, e.k>>
+NoOut == (<<0, 0, 0>> :> 0)        \* no call seen yet (slot <<0, 0, 0>> is not a call)
+Seen(o, e) == Slot(e) \in DOMAIN o
 BootG == Nodes[1].g0
+
+CanonNodes == {i \in 1..N: Nodes[i].a = "c" /\ Nodes[i].c = i}
+CanonUnique == Cardinality({Slot(Nodes[i]): i \in CanonNodes}) = Cardinality(CanonNodes)
+ASSUME CanonUnique
+
+CanonOk(e) ==
+    /\ e.c \in 1..N
+    /\ LET c == Nodes[e.c] IN c.a = "c" /\ Slot(c) = Slot(e) /\ c.c = e.c /\ c.o = e.o
 
 Judge(e, gpre, opre) ==
     [cont |-> e.g0 = gpre,
      sane |-> (e.a = "d") => (e.g1 # e.g0),
      okg  |-> (e.a = "c") => (e.g1 = e.g0),
-     okd  |-> (e.a = "c") => (opre[e.r][e.k] = 0 \/ e.o = opre[e.r][e.k])]
+     okd  |-> (e.a = "c") => (~Seen(opre, e) \/ e.o = opre[Slot(e)]),
+     okf  |-> (e.a = "c") => CanonOk(e)]
 
 Remember(e, opre) ==
-    IF e.a = "c" /\ opre[e.r][e.k] = 0 THEN [opre EXCEPT ![e.r][e.k] = e.o] ELSE opre
+    IF e.a = "c" /\ ~Seen(opre, e) THEN (Slot(e) :> e.o) @@ opre ELSE opre
 
 Enter(i, gpre, opre) ==
     LET e == Nodes[i] IN
@@ -62,6 +89,7 @@ Next == \E c \in Nodes[l].fc .. (Nodes[l].fc + Nodes[l].nc - 1): Enter(c, g, out
 
 Spec == Init /\ [][Next]_<<l, g, out, v>>
 
-Accepted == v.cont /\ v.sane /\ v.okg /\ v.okd
-Verdict == Accepted \/ PrintT(ToJson([l |-> l, cont |-> v.cont, sane |-> v.sane, okg |-> v.okg, okd |-> v.okd]))
+Accepted == v.cont /\ v.sane /\ v.okg /\ v.okd /\ v.okf
+Verdict == Accepted \/ PrintT(ToJson([l |-> l, cont |-> v.cont, sane |-> v.sane, okg |-> v.okg, okd |-> v.okd,
+                                      okf |-> v.okf]))
 =============================================================================
